@@ -5,7 +5,7 @@ namespace XC.C12
     `ok <ECB-Encrypt(src)> <ECB-Decrypt(src)>` -/
 def runBlocks (bs : Nat) (enc dec : Bytes → Bytes) (src : Bytes) : String :=
   if src.length == 0 || src.length % bs != 0 then "bad-op"
-  else s!"ok {toHex (ecb bs enc src)} {toHex (ecb bs dec src)}"
+  else s!"ok {toHex (ecb bs enc src)} {toHex (ecb bs dec src)} mutated=none"
 
 /-- `blk cipher=<name> key=<hex> [rounds=<int>] [salt=<hex>] [t1=<nat>] src=<hex> [expect=<hex>]` -/
 def handle1 (o : Op) : String :=
@@ -18,30 +18,30 @@ def handle1 (o : Op) : String :=
       | none => "bad-op"
       | some rounds =>
         match Tea.newCipher key rounds with
-        | none => "err"
+        | none => "err mutated=none"
         | some c => runBlocks 8 (Tea.encrypt c) (Tea.decrypt c) src
     | "xtea" =>
       match Xtea.newCipher key with
-      | none => "err"
+      | none => "err mutated=none"
       | some c => runBlocks 8 (Xtea.encrypt c) (Xtea.decrypt c) src
     | "blowfish" =>
       match Blowfish.newCipher key with
-      | none => "err"
+      | none => "err mutated=none"
       | some c => runBlocks 8 (Blowfish.encrypt c) (Blowfish.decrypt c) src
     | "blowfish-salted" =>
       match o.hex? "salt" with
       | none => "bad-op"
       | some salt =>
         match Blowfish.newSaltedCipher key salt with
-        | none => "err"
+        | none => "err mutated=none"
         | some c => runBlocks 8 (Blowfish.encrypt c) (Blowfish.decrypt c) src
     | "cast5" =>
       match Cast5.newCipher key with
-      | none => "err"
+      | none => "err mutated=none"
       | some c => runBlocks 8 (Cast5.encrypt c) (Cast5.decrypt c) src
     | "twofish" =>
       match Twofish.newCipher key with
-      | none => "err"
+      | none => "err mutated=none"
       | some c => runBlocks 16 (Twofish.encrypt c) (Twofish.decrypt c) src
     | "rc2" =>
       match o.nat? "t1" with
